@@ -1,4 +1,4 @@
-From TN Require Export Harness.HBase Model.Tools Model.Convert Model.Create.
+From TN Require Export Harness.HBase Sem.Fast Model.Tools Model.Convert Model.Create.
 
 Inductive op12 :=
 | OFlip (t : tensor ZO) (dims : list nat)
@@ -48,6 +48,6 @@ Definition check (c : case) : bool :=
   match run (c_op c) with
   | Some cs =>
       (match c_op c with OUnbind _ _ _ => true | _ => shape_eqb (sshape cs) (c_shape c) end) &&
-      list_cmp cmpZ (dense_of (eval cs) (sshape cs)) (c_dense c)
+      list_cmp cmpZ (dense_of (eval_l cs) (sshape cs)) (c_dense c)
   | None => false
   end.
